@@ -15,7 +15,7 @@ def render_events(events):
     def flush():
         if recvs:
             out.append("      recv sizes asked/got: " + " ".join(
-                "%d/%s" % (a, {-1: "EOF", -2: "TIMEOUT"}.get(g, g)) for a, g in recvs))
+                "%d/%s" % (a, {-1: "EOF", -2: "TIMEOUT", -3: "RESET"}.get(g, g)) for a, g in recvs))
             del recvs[:]
 
     for ev in events:
